@@ -419,27 +419,26 @@ func (p *Pollard) Verify(delHashes []Hash, proof Proof, remember bool) error {
 			"but have %d deletions", len(delHashes))
 	}
 
-	rootMatches := 0
-	for i := range p.Roots {
-		if len(rootCandidates) > rootMatches &&
-			p.Roots[len(p.Roots)-(i+1)].data == rootCandidates[rootMatches] {
-			rootMatches++
-		}
-	}
-	// Error out if all the rootCandidates do not have a corresponding
-	// polnode with the same hash.
-	if len(rootCandidates) != rootMatches {
-		rootHashes := make([]Hash, len(p.Roots))
-		for i := range rootHashes {
-			rootHashes[i] = p.Roots[i].data
-		}
-		// The proof is invalid because some root candidates were not
-		// included in `roots`.
-		err := fmt.Errorf("Pollard.Verify fail. Have %d roots but only "+
-			"matched %d roots.\nRootcandidates:\n%v\nRoots:\n%v",
-			len(rootCandidates), rootMatches,
-			printHashes(rootCandidates), printHashes(rootHashes))
+	// Each root candidate must match the root of the tree that its targets are in.
+	rootIndexes, err := targetRootIndexes(proof.Targets, p.NumLeaves)
+	if err != nil {
 		return err
+	}
+	if len(rootCandidates) != len(rootIndexes) {
+		return fmt.Errorf("Pollard.Verify fail. Have %d root candidates but the "+
+			"targets are in %d trees", len(rootCandidates), len(rootIndexes))
+	}
+	for i, rootIndex := range rootIndexes {
+		if rootIndex >= len(p.Roots) || p.Roots[rootIndex].data != rootCandidates[i] {
+			rootHashes := make([]Hash, len(p.Roots))
+			for i := range rootHashes {
+				rootHashes[i] = p.Roots[i].data
+			}
+			err := fmt.Errorf("Pollard.Verify fail. Root candidate %d doesn't match "+
+				"root %d.\nRootcandidates:\n%v\nRoots:\n%v", i, rootIndex,
+				printHashes(rootCandidates), printHashes(rootHashes))
+			return err
+		}
 	}
 
 	return nil
